@@ -2,7 +2,7 @@
 From Coq Require Import ZArith List Bool Reals Floats.SpecFloat.
 From Flocq Require Import Core.Zaux Core.Raux Core.Defs Core.Generic_fmt Core.FLT Core.Round_NE IEEE754.BinarySingleNaN.
 From Rscel Require Import Base.Prims Base.F64 Base.Text Model.Value Model.Lexer Model.Ast Model.Parser.
-From Rscel Require Import Proofs.Literals Proofs.FloatLit Proofs.StrLit Proofs.Conv Proofs.LexInt Proofs.LexStr Proofs.LitProgram.
+From Rscel Require Import Proofs.Literals Proofs.FloatLit Proofs.StrLit Proofs.Conv Proofs.LexInt Proofs.LexStr Proofs.LitProgram Proofs.LexHex Proofs.LexFloat.
 From Rscel Require Import Model.Compile Model.Interp.
 Import ListNotations.
 Open Scope Z_scope.
@@ -176,3 +176,20 @@ Theorem C13_bytes_source_evaluates : forall q items f g E d lg, (q = 39 \/ q = 3
               run (S (S (S g))) E (pr_code p) true d lg = (ROk (VBytes (bytes_of_items items)), lg).
 Proof. exact bytes_source_evaluates. Qed.
 Print Assumptions C13_bytes_source_evaluates.
+
+Theorem C13_hex_source_evaluates : forall dch fuel n x f g E d lg,
+  good_alphabet 16 dch -> (0 < fuel)%nat -> 0 <= n < 16 ^ Z.of_nat fuel -> (x = 120 \/ x = 88) -> n <= i64_max -> (d < 32)%nat ->
+  exists p k, compile_source (S f) (48 :: x :: render 16 dch fuel n []) = COk p k /\
+              run (S (S (S g))) E (pr_code p) true d lg = (ROk (VInt n), lg).
+Proof. exact hex_source_evaluates. Qed.
+Print Assumptions C13_hex_source_evaluates.
+
+(** a double literal I.F evaluates to dec_to_f64 of its digits, i.e. (C13_float_correctly_rounded) to the
+    nearest binary64 value, ties to even, of the decimal number written *)
+Theorem C13_float_source_evaluates : forall d0 ip fp f g E d lg,
+  Forall (fun c => is_digit c = true) (d0 :: ip) -> Forall (fun c => is_digit c = true) fp -> (d < 32)%nat ->
+  exists p k, compile_source (S f) (d0 :: ip ++ 46 :: fp) = COk p k /\
+              run (S (S (S g))) E (pr_code p) true d lg =
+                (ROk (VFloat (dec_to_f64 (dec_value ((d0 :: ip) ++ fp) 0) (- Z.of_nat (length fp)))), lg).
+Proof. exact float_source_evaluates. Qed.
+Print Assumptions C13_float_source_evaluates.
